@@ -33,7 +33,7 @@ import (
 )
 
 type c16tOp struct {
-	Op   string `json:"op"` // sub unsub end pub tpub retain
+	Op   string `json:"op"` // sub unsub end pub tpub retain flap
 	Node int    `json:"n"`
 	K    int    `json:"k,omitempty"`  // sub/unsub/tpub: filter t/K; retain: topic r/<node>/K
 	To   int    `json:"to,omitempty"` // pub: only node To subscribes the topic
@@ -59,6 +59,9 @@ func genC16Three(t *rapid.T) c16tScen {
 			s.Ops = append(s.Ops, c16tOp{Op: "unsub", Node: node, K: rapid.IntRange(0, 3).Draw(t, "k")})
 		case k == 8:
 			s.Ops = append(s.Ops, c16tOp{Op: "end", Node: node})
+		case k == 9 && rapid.Bool().Draw(t, "flap"):
+			// node `node` is told (by its failure detector) that node `to` failed and came back; `to` itself notices nothing
+			s.Ops = append(s.Ops, c16tOp{Op: "flap", Node: node, To: (node + 1 + rapid.IntRange(0, 1).Draw(t, "to")) % 3})
 		case k == 9:
 			s.Ops = append(s.Ops, c16tOp{Op: "retain", Node: node, K: rapid.IntRange(0, 1).Draw(t, "k")})
 		default:
@@ -87,6 +90,9 @@ func runC16Three(s c16tScen, c *ev.Case) (out *ev.Violation) {
 	}
 	w := watchFedPeers(nodes...)
 	defer func() {
+		if w == nil {
+			return
+		}
 		w.close()
 		if bad, why := w.flapped(); bad {
 			c.Logf("membership disturbed: %s (verdict %v discarded)", why, out)
@@ -316,6 +322,40 @@ func runC16Three(s c16tScen, c *ev.Case) (out *ev.Violation) {
 				return ev.Violf("C16.lost-message", "node %d: %d message(s) published (after the views had converged) to filters its subscriber held were not delivered before its session ended, first %s", i, len(wantSub[i]), wantSub[i][0].uid)
 			}
 			c.Label("session_end")
+		case "flap":
+			// One-sided loss of a peer: node i's failure detector reports node To as failed and then as joined again (a
+			// false positive that To refutes); To never notices. Node i drops everything it held for To and starts a new
+			// session with it; the property demands a full resynchronisation in both directions. Done at a quiet moment:
+			// events still queued for a peer whose session is dropped are not covered by "while the peer session lasts".
+			if op.To == i {
+				return harnessErr("bad op")
+			}
+			if v := converge(fmt.Sprintf("before step %d", step)); v != nil {
+				return v
+			}
+			if v := drainAll(); v != nil {
+				return v
+			}
+			w.close()
+			if bad, why := w.flapped(); bad {
+				c.Logf("membership disturbed before the generated flap: %s", why)
+				c.Count("membership_flap_inconclusive", 1)
+				w = nil
+				return nil
+			}
+			w = nil
+			if !nodes[i].Fed.VerifMemberFlap(nodes[op.To].Name) {
+				return harnessErr("node %d does not know node %d", i, op.To)
+			}
+			if err := cluster.WaitMesh(15 * time.Second); err != nil {
+				return harnessErr("mesh after the flap: %v", err)
+			}
+			w = watchFedPeers(nodes...)
+			nontrivial = true
+			c.Label("one_sided_member_flap")
+			if v := converge(fmt.Sprintf("after the one-sided flap of step %d (node %d lost and re-found node %d)", step, i, op.To)); v != nil {
+				return v
+			}
 		case "retain":
 			broadcast(i, "retained")
 			topic, uid := fmt.Sprintf("r/%d/%d", i, op.K), uidOf(i)
